@@ -392,13 +392,17 @@ func abortRenderer(t *tape.Tape, r *render.Renderer, a []world.Op, cut int, caus
 
 func rendReuse(ctx *Ctx, t *tape.Tape, as [][]world.Op, cuts []int, causes []abortCause, b []world.Op, rect image.Rectangle, viaBytes bool, rect2 *image.Rectangle) *report.Violation {
 	z := &world.RecRaster{}
-	var r render.Renderer
+	// the Renderer lives in a pool (a slice of values) that may grow between
+	// the uses: the value then moves to another address and its old place is
+	// cleared, as happens to any element of a slice that is appended to
+	pool := make([]render.Renderer, 1)
+	r := &pool[0]
 	r.SetRasterizer(z, rect)
 	var notes []string
 	disabledAtAbort := false
 	for i := range as {
 		i := i
-		if p, _, msg := guard(func() { notes = append(notes, abortRenderer(t, &r, as[i], cuts[i], causes[i])...) }); p {
+		if p, _, msg := guard(func() { notes = append(notes, abortRenderer(t, r, as[i], cuts[i], causes[i])...) }); p {
 			// a panic of the first use is C02's business only for decoded input;
 			// direct out-of-order calls cannot happen here (A is well formed)
 			_ = msg // a panic as such is C02's business
@@ -416,6 +420,16 @@ func rendReuse(ctx *Ctx, t *tape.Tape, as [][]world.Op, cuts []int, causes []abo
 		notes = append(notes, fmt.Sprintf("%d further uneventful uses (Reset with the default metadata) in between", k))
 		if ctx.Stats != nil {
 			ctx.Stats.Add("cases_with_idle_uses_in_between", 1)
+		}
+	}
+	if t.Chance(1, 6) {
+		old := pool
+		pool = append(pool, render.Renderer{}) // capacity 1: the values move to a new array
+		old[0] = render.Renderer{}
+		r = &pool[0]
+		notes = append(notes, "the Renderer value moved to another address between the uses (its pool grew; the old place was cleared)")
+		if ctx.Stats != nil {
+			ctx.Stats.Add("cases_where_the_renderer_value_moved_between_uses", 1)
 		}
 	}
 	if rect2 != nil {
@@ -440,7 +454,7 @@ func rendReuse(ctx *Ctx, t *tape.Tape, as [][]world.Op, cuts []int, causes []abo
 		notes = append(notes, "second use decoded with WithPalette/WithColorAt options")
 	}
 	mark := len(z.Ops)
-	pReused, _, msgReused := guard(func() { deliver(&r, b, viaBytes, opts...) })
+	pReused, _, msgReused := guard(func() { deliver(r, b, viaBytes, opts...) })
 	z2 := &world.RecRaster{}
 	var r2 render.Renderer
 	r2.SetRasterizer(z2, rect)
